@@ -25,6 +25,7 @@ pub(crate) trait ToFileTime {
 
 impl ToFileTime for Timestamp {
     fn to_file_time(&self) -> FileTime {
-        FileTime::from_unix_time(self.as_second(), self.subsec_nanosecond().cast_unsigned())
+        let (secs, nanos) = crate::index::entry::floor_second_and_nanos(self);
+        FileTime::from_unix_time(secs, nanos)
     }
 }
